@@ -78,7 +78,12 @@ def _build(fx, bld, v):
     n = iso.size_of(v)
     vt = reg.WordTable('V', 34)
     genv = bld.with_consts(VERSION_INFO=vt)
-    genv['calc_format_info'] = lambda version, error, mask_pattern: reg.Word('F')
+    bld.fmt_calls = calls = []
+
+    def calc_format_info(*a, **k):
+        calls.append((a, k))
+        return reg.Word('F')
+    genv['calc_format_info'] = calc_format_info
     g = {k: (FuncVal(val.node, genv, bld.interp) if isinstance(val, FuncVal) else val) for k, val in genv.items()}
     for k, val in g.items():
         if isinstance(val, FuncVal):
@@ -202,11 +207,16 @@ def r6(fx):
                 yield ob(f'format index v{v}-{l} mask {mask}', got == want, fn, got=got, want=want)
     # add_format_info uses calc_format_info(version, error, mask_pattern) of its own parameters
     afi = fx.fn('encoder', 'add_format_info')
-    a = single([s for s in afi.body if isinstance(s, ast.Assign) and ast.unparse(s.targets[0]) == 'format_info'], 'format_info')
-    b = pat.need(a.value, 'calc_format_info(H_v, H_e, H_m)', 'format word lookup')
-    yield ob('add_format_info looks up its own (version, error, mask_pattern)',
-             pat.slot(b['v'], ['version'], 'v') and pat.slot(b['e'], ['error'], 'e') and pat.slot(b['m'], ['mask_pattern'], 'm'),
-             a, got=ast.unparse(a.value), want='calc_format_info(version, error, mask_pattern)')
+    pn = src.params(fx.fn('encoder', 'calc_format_info'))
+    bad = []
+    for v in (-1, 1, 7):
+        _build(fx, bld, v)
+        rv = mv[v] if v < 1 else v
+        got = [dict(zip(pn, a_), **k_) for a_, k_ in bld.fmt_calls]
+        if got != [dict(zip(pn, (rv, '<error>', '<mask>')))]:
+            bad.append((v, got))
+    yield ob('add_format_info looks up its own (version, error, mask_pattern)', not bad, afi, got=bad or 'calc_format_info(version, error, mask_pattern), once',
+             want='calc_format_info(version, error, mask_pattern), once')
 
 
 def _top_calls(fn):
